@@ -52,6 +52,17 @@ def cases(rng, tier):
                 hdr = b"\x12\x34" + w.to_bytes(2, "big") + b"\x00\x00\x00\x00\x00\x00\x00\x01"
                 opt = b"\x00\x00\x29\x04\xd0" + bytes([ext, ver, 0, 0]) + b"\x00\x00"
                 out.append("PARSE " + (hdr + opt).hex())
+    # the counts of a parsed packet are the header's count words, under every flag word: a reply cut anywhere (also a truncated
+    # one, TC set) either is rejected or has exactly the announced entries
+    q = b"\x04host\x05local\x00\x00\x01\x00\x01"
+    a1 = b"\xc0\x0c\x00\x01\x00\x01\x00\x00\x00\x3c\x00\x04\x0a\x00\x00\x01"
+    a2 = b"\xc0\x0c\x00\x10\x00\x01\x00\x00\x00\x3c\x00\x04\x03k=v"
+    body = q + a1 + a2 + a1 + a2
+    for w in (0x8200, 0x8600, 0x0200, 0x8000, 0x8180, 0x0000, 0x8203, 0x8780):
+        full = b"\x12\x34" + w.to_bytes(2, "big") + b"\x00\x01\x00\x02\x00\x01\x00\x01" + body
+        for cut in range(12, len(full) + 1):
+            out.append("PARSE " + full[:cut].hex())
+            TRUNC.add(out[-1])
     # every value a count word can take is written back: sections of 0, 1, 255, 256, 257, 65534 and 65535 minimal entries (the
     # largest has 65535 root questions, or 65534 additional records plus the EDNS pseudo-record)
     for sec in range(4):
@@ -69,7 +80,12 @@ def cases(rng, tier):
     return out
 
 
+TRUNC = set()
+
+
 def normalize(case, out):
+    if case in TRUNC:
+        return "ERR" if out.startswith("ERR") else out
     return out
 
 
@@ -163,6 +179,19 @@ def oracle(case, out):
         want = (w & 0x87B0) | (op2 << 11) | rc2
         if got != want:
             return "flags word %04x, then opcode := %d and rcode := %d through the accessors: serialised word %04x, expected %04x" % (w, op2, rc2, got, want)
+        return None
+    if case in TRUNC:
+        d = bytes.fromhex(t[1])
+        if out.startswith("PANIC") or out in ("HANG", "CRASH"):
+            return "%s on %s" % (out, t[1][:200])
+        if out.startswith("OK PKT "):
+            import dns
+            p = dns.parse_pkt_text(out[3:])
+            got = (len(p["qs"]), len(p["ans"]), len(p["nss"]), len(p["adds"]) + (1 if p["opt"] is not None else 0))
+            want = tuple(int.from_bytes(d[i:i + 2], "big") for i in (4, 6, 8, 10))
+            if got != want:
+                return "the header announces %r entries, the parsed packet holds %r (flags word %04x, %d of the message's bytes): %s" % (
+                    want, got, int.from_bytes(d[2:4], "big"), len(d), t[1][:200])
         return None
     if t[0] == "PARSE":
         d = bytes.fromhex(t[1])
